@@ -11,6 +11,9 @@ import (
 type ByLines struct {
 	f *os.File
 	b *bufio.Reader
+
+	// off is the file offset just after the last byte consumed by Read.
+	off int64
 }
 
 // OpenByLines opens the named file fn, and returns a ByLines reader.
@@ -36,6 +39,7 @@ func (b *ByLines) Read() ([]byte, error) {
 		if err != nil {
 			return nil, err
 		}
+		b.off += int64(len(bytes))
 
 		if len(bytes) > 1 {
 			return bytes[:len(bytes)-1], nil // remove the '\n'
@@ -50,5 +54,10 @@ func (b *ByLines) Rewind() error {
 		return err
 	}
 	b.b.Reset(b.f)
+	b.off = 0
 	return nil
 }
+
+// Offset is the file offset just after the line last returned by Read,
+// including its '\n' and any empty lines skipped before it.
+func (b *ByLines) Offset() int64 { return b.off }
